@@ -404,6 +404,24 @@ def shard_cnf(shard, seed, n):
     return run
 
 
+def shard_enum(shard, nshards, d3stride, offset):
+    """Bounded-exhaustive: both CNF conversions on every quantifier-free formula with <= 2 connectives (+ a slice of 3)."""
+    import random
+    from vf import enumterms
+    run = Run(PID)
+    g = G(cfg=CNF_BOOL, rnd=random.Random(offset))
+    idx = 0
+    for t in enumterms.bool_quant_terms(d3stride):
+        if B.ops_of(t) & {"FORALL", "EXISTS"}:
+            continue
+        idx += 1
+        if idx % nshards != shard:
+            continue
+        check_cnf(run, t, g, {})
+        run.cls("cnf:enumerated-connective-combination")
+    return run
+
+
 def shard_ack(shard, seed, n):
     run = Run(PID)
 
@@ -422,7 +440,9 @@ def main():
     thorough = chk.tier == "thorough"
     jobs = [(shard_cnf, dict(shard=s, seed=chk.seed, n=20000 if thorough else 1200)) for s in range(8)]
     jobs += [(shard_ack, dict(shard=s, seed=chk.seed, n=20000 if thorough else 1200)) for s in range(8)]
+    jobs += [(shard_enum, dict(shard=s, nshards=16, d3stride=4 if thorough else 40, offset=chk.seed)) for s in range(16)]
     chk.add(run_shards(jobs))
+    chk.exhaustive.append("every quantifier-free Boolean formula with at most two connectives over p, q, (i < j), True")
     chk.exhaustive.append("all values of the introduced CNF symbols (exact DPLL) for every explored interpretation")
     chk.exhaustive.append("all function tables when the constants are inconsistent (Ackermann backward direction)")
     for c in ("cnf:shared", "cnf:iff-or-ite", "cnf:bool-constant", "cnf:>=4-definitions", "ack:nested", "ack:repeated",
